@@ -205,6 +205,8 @@ def body(chk, db, cfgname):
                  any(strip_targs(c_.nodes[j].get("cname") or "") == "pMPI::MPIMaster::swap" for j in c_.calls())]
         if not deleg:
             raise AnalysisBroken("no constructor of MPIMaster delegates through swap()")
+        if not swapped:
+            raise AnalysisBroken("MPIMaster::swap does not exchange members one by one (another form of swap): not analysed")
         missing_ = {}
         for c_ in deleg:
             own = {i_.get("field") for i_ in c_.d.get("inits", []) if i_.get("field") and i_.get("written")}
